@@ -96,23 +96,29 @@ func vLogAt(l commitlog.CommitLog, off int64) ([]byte, uint64, bool) {
 // 'max' messages after the follower's newest offset, then the leader's HW.
 func vFetch(l, f *vRep, max int) {
 	buf := make([]byte, 28)
-	for i := 0; i < max; i++ {
-		req := f.p.log.NewestOffset()
-		if req >= l.p.log.NewestOffset() {
-			break
-		}
+	req := f.p.log.NewestOffset()
+	if req < l.p.log.NewestOffset() && max > 0 {
 		r, err := l.p.log.NewReader(req+1, true)
 		vAssert(err == nil, "replication reader opens")
 		if err != nil {
 			return
 		}
-		m, off, _, _, err := r.ReadMessage(context.Background(), buf)
-		vAssert(err == nil, "replication read succeeds")
-		if err != nil {
-			return
+		// one response = one message set (replicator.replicate batches),
+		// appended by one AppendMessageSet call
+		var data []byte
+		first := int64(-1)
+		for i := 0; i < max && req+int64(i) < l.p.log.NewestOffset(); i++ {
+			m, off, _, _, err := r.ReadMessage(context.Background(), buf)
+			vAssert(err == nil, "replication read succeeds")
+			if err != nil {
+				return
+			}
+			if first < 0 {
+				first = off
+			}
+			data = append(append(data, buf...), m...)
 		}
-		data := append(append([]byte{}, buf...), m...)
-		if !(off < f.p.log.NewestOffset()+1) {
+		if !(first < f.p.log.NewestOffset()+1) {
 			_, err := f.p.log.AppendMessageSet(data)
 			vAssert(err == nil, "follower append succeeds")
 		}
@@ -158,7 +164,7 @@ func VerifC02Failovers() {
 			}
 		}
 	}
-	term := func(leader *vRep, followers []*vRep, epoch uint64, what string) {
+	term := func(leader *vRep, followers []*vRep, epoch uint64, maxMsgs int, what string) {
 		// becomeLeader: the new leader records its epoch
 		vC02Leader = leader.p
 		leader.p.LeaderEpoch = epoch
@@ -172,7 +178,7 @@ func VerifC02Failovers() {
 			vAssert(f.p.truncateUncommitted() == nil, "follower log reconciliation succeeds")
 		}
 		check(leader, what+" after reconciliation")
-		n := vChoose(3) // messages appended in this term
+		n := vChoose(maxMsgs + 1) // messages appended in this term
 		for i := 0; i < n; i++ {
 			ts++
 			v := vNondetBytes("val", 1)
@@ -209,19 +215,19 @@ func VerifC02Failovers() {
 		check(leader, what)
 	}
 	a, b, c := reps[0], reps[1], reps[2]
-	term(a, []*vRep{b, c}, 2, "term of a")
+	term(a, []*vRep{b, c}, 2, vParam("m1", 2), "term of a")
 	// a crashes; the second leader is b or c (both in the ISR; the one that is further behind may be chosen too)
 	a.alive = false
 	second, third := b, c
 	if vChoose(2) == 1 {
 		second, third = c, b
 	}
-	term(second, []*vRep{third, a}, 5, "term of the second leader")
+	term(second, []*vRep{third, a}, 5, vParam("m2", 2), "term of the second leader")
 	vCover("second-term")
 	// the second leader crashes; the third replica takes over; a restarts and rejoins
 	second.alive = false
 	a.alive = true
-	term(third, []*vRep{a, second}, 9, "term of the third leader")
+	term(third, []*vRep{a, second}, 9, vParam("m3", 2), "term of the third leader")
 	vCover("third-term")
 	// finally everybody alive catches up completely
 	vFetch(third, a, 8)
